@@ -427,6 +427,49 @@ def r02_12(run, model):
     run.floor("goast::Item variants examined by the import pruner", seen, 5)
 
 
+def r02_14(run, model):
+    run.rule("R02.14", "a Go function bound as `extern … -> unit` has no result, so its call is never used as a Go value: every arm of the "
+                       "statement compilers (compile_aexpr*) that binds or assigns the value of an ECall first asks a predicate that "
+                       "recognises a unit-typed call of an extern function and emits the call as a statement")
+    GO = "crates/compiler/src/go/compile.rs"
+    preds = set()
+    for g in model.fns(GO):
+        if g.body is None:
+            continue
+        t = S.norm_ws(run.facts.text(GO, g.node["sp"]))
+        if "extern_funcs" in t and "TUnit" in t and re.search(r"->bool\{", t):
+            preds.add(g.name)
+    # helpers that ask a predicate themselves (followed one level)
+    via = {g.name for g in model.fns(GO) if g.body is not None and preds and g.name not in preds and not g.name.startswith("compile_aexpr")
+           and any(True for _ in S.calls(g.body, *preds))}
+    n = 0
+    for f in model.fns(GO):
+        if f.body is None or not f.name.startswith("compile_aexpr"):
+            continue
+        for m in S.find(f.body, "Match"):
+            for arm in m["arms"]:
+                pt = S.norm_ws(run.facts.text(GO, arm["pat"]["sp"]))
+                catch_all = pt == "_" or re.fullmatch(r"\w+", pt) is not None
+                if "CExpr::ECall" not in pt and not catch_all:
+                    continue
+                if catch_all and not any("CExpr::" in S.norm_ws(run.facts.text(GO, a["pat"]["sp"])) for a in m["arms"]):
+                    continue  # not a match on a CExpr
+                if catch_all and any("CExpr::ECall" in S.norm_ws(run.facts.text(GO, a["pat"]["sp"])) for a in m["arms"]):
+                    continue  # calls have an arm of their own
+                binds = [st for st in S.walk(arm["body"]) if st["k"] == "Struct" and st["segs"][-1] in ("VarDecl", "Assignment", "Return")
+                         and (any(True for _ in S.calls(st, "compile_cexpr")) or (catch_all and st["segs"][-1] == "Return"))]
+                delegated = bool(via) and any(True for _ in S.calls(arm["body"], *via))
+                if not binds and not delegated:
+                    continue
+                n += 1
+                asks = (bool(preds) and any(True for _ in S.calls(arm["body"], *preds))) or delegated
+                run.ob("R02.14", f"{f.name}|ECall value site #{n} distinguishes result-less extern calls", asks, site(GO, arm["sp"]),
+                       f"predicates recognising a unit-typed extern call: {sorted(preds) or 'none'}; asked in this arm: {asks}",
+                       witness="extern \"go\" \"time\" sleep(d: Duration) -> unit; fn nap(n: int32) -> unit { sleep(duration(n)) } emits "
+                               "`ret7 = time.Sleep(t3)`: time.Sleep has no result, Go rejects the assignment")
+    run.floor("arms that bind the value of an ECall", n, 3)
+
+
 def run(run, model):
     run.try_rule(r02_1, model)
     run.try_rule(r02_2, model)
@@ -438,6 +481,7 @@ def run(run, model):
     run.try_rule(r02_10, model)
     run.try_rule(r02_11, model)
     run.try_rule(r02_12, model)
+    run.try_rule(r02_14, model)
     from rules import c06
     run.rule("R02.13", "no type switch on a variable that an enclosing type switch rebound at a struct type (shared with C06 R06.11)")
     run.try_rule(c06.r06_11, model)
